@@ -269,6 +269,11 @@ Qed.
 Lemma push_same_head c d0 t d : push ((c, d0) :: t) (c, d) = add_head d ((c, d0) :: t).
 Proof. cbn [push fst snd add_head]. rewrite canvas_eqb_refl. reflexivity. Qed.
 
+Lemma push_push_same acc c d1 d2 : push (push acc (c, d1)) (c, d2) = push acc (c, d1 + d2).
+Proof.
+  destruct (push_head acc c d1) as (d0 & t & E). rewrite push_add, E. apply push_same_head.
+Qed.
+
 Lemma collapse_rev_by_snoc pi l c d :
   collapse_rev_by pi (l ++ [(c, d)]) = push (collapse_rev_by pi l) (map pi c, d).
 Proof. unfold collapse_rev_by, proj_show. rewrite map_app, fold_left_app. reflexivity. Qed.
